@@ -13,9 +13,9 @@ S2C: every enumerated input through the real parse_request_start_line / parse_re
 C2S: seeded random lines with single-character mutations, random Unicode for the total parsers,
      random timestamps, URLs, addresses; TLC validates every recorded call.
 
-Binding demonstrated during development (scratch worktree, notes/text.md): `[0-9]{3}` -> `[0-9]+`
-in status_code, `startswith("HTTP/1")` dropped, `sorted` removed from _encode_header, re_unescape
-accepting `\\d` - each reported as VIOLATION.
+Binding demonstrated during development (scratch worktree, notes/text.md): `[0-9]{3}` ->
+`[0-9]{3,}` in status_code (status "1000" accepted), the HTTP/1 version test dropped from
+parse_request_start_line (HTTP/2.0 accepted) - each reported as VIOLATION by S2C.
 """
 import random
 
